@@ -741,6 +741,7 @@ pub fn log(s: String) { LOG.with(|l| l.borrow_mut().push(s)); }
 pub fn take() -> Vec<String> { LOG.with(|l| std::mem::take(&mut *l.borrow_mut())) }
 #[derive(Debug, PartialEq)] pub struct Wrap<T>(pub T);
 pub trait Marker {}
+pub trait Conv<X> {}
 '''
 
 
@@ -793,7 +794,12 @@ def gen_c09_program(seed, start, count):
                 marker = f'impl{g} Marker for Wrap<{A}> {{}}\n'
                 ret = f'Wrap({ctor_out})' if outty.startswith('Wrap') else ctor_out
                 acc = '.0.0' if outty.startswith('Wrap') else '.0'
-                base = (marker + f'#[derive_ex({", ".join(names)})]\nimpl{g} std::ops::{tr}{rarg_s} for {lty}{wh} {{ type Output = {outty}; '
+                gb = g
+                if generic and rng.random() < 0.6:
+                    # `Self` in an inline bound of the impl's own parameter list (holds for `Self = A<u8>` only)
+                    gb = '<T: Clone + std::fmt::Debug + Conv<Self>>'
+                    marker += 'impl Conv<A<u8>> for u8 {}\n'
+                base = (marker + f'#[derive_ex({", ".join(names)})]\nimpl{gb} std::ops::{tr}{rarg_s} for {lty}{wh} {{ type Output = {outty}; '
                         f'fn {f}(self, rhs: {rty_s}) -> {outty} {{ log(format!("base {{}} {{}}", self.0, rhs.0)); {ret} }} }}\n')
             else:
                 acc = '.0'
